@@ -121,7 +121,8 @@ def exec (g : Cfg) (o : Oracle) : Nat → W → St → Out
   | f+1, .loop a, s =>
     match exec g o f a s with
     | .br 0 s' => exec g o f (.loop a) s'
-    | r => unlabel r
+    | .br (n+1) s' => .br n s'
+    | r => r
   | f+1, .ite y n, s =>
     match s.conds with
     | [] => .stuck s
